@@ -8,6 +8,7 @@ import Jsonapi.Driver.Filter
 import Jsonapi.Driver.Range
 import Jsonapi.Driver.Struct
 import Jsonapi.Driver.Resource
+import Jsonapi.Driver.Marshal
 open Jsonapi Jsonapi.Driver
 
 structure DState where
@@ -35,6 +36,9 @@ def stepLine (st : DState) (line : String) : DState × String :=
   | [.list (.atom "col" :: args)] =>
     let (c', m, sp, dom) := stepCol st.col args
     ({ st with col := c' }, m ++ "\t" ++ sp ++ "\t" ++ (if dom then "1" else "0"))
+  | [.list (.atom "marshal" :: args)] =>
+    let (m, sp, dom) := stepMarshal args
+    (st, m ++ "\t" ++ sp ++ "\t" ++ (if dom then "1" else "0"))
   | _ => (st, "bad-line\t-\t0")
 
 partial def loop (h : IO.FS.Stream) (out : IO.FS.Stream) (st : DState) : IO Unit := do
